@@ -12,7 +12,7 @@ use std::time::Duration;
 
 /* ---------------------------------------------------------------- values */
 
-#[derive(Clone, Debug, PartialEq, Eq, Hash)]
+#[derive(Clone, Debug, PartialEq, Eq, Hash, serde::Serialize, serde::Deserialize)]
 pub enum V {
     I(i64),
     S(String),
@@ -973,6 +973,64 @@ pub fn check_prog(cx: &mut Ctx, prog: &Prog, modes: &[Mode], o: &CheckOpts) {
                 let sig = if ans2 == want { "planned-differs-from-literal-only-through-reorder-pass" } else { "differs-from-reference" };
                 cx.oracle_fail(idx, sig, format!("mode={} real={ans} reference={want} real-without-reorder-pass={ans2}", m.enc()));
             }
+        }
+    }
+}
+
+/* ---------------------------------------------------------------- streamed file sources */
+
+/// build `prog` over a STREAMED JSONL file source: the source rows are written with the real
+/// `write_jsonl_vec` into `dir`, then read back through `read_jsonl_streaming(.., lines_per_shard)`
+pub fn build_file(p: &Pipeline, prog: &Prog, per: usize, dir: &std::path::Path) -> anyhow::Result<Coll> {
+    use ironbeam::io::jsonl::write_jsonl_vec;
+    use ironbeam::read_jsonl_streaming;
+    CUR_PIPELINE.with(|c| *c.borrow_mut() = Some(p.clone()));
+    let path = dir.join("src.jsonl");
+    let mut c = match prog.shape {
+        Shape::T => { write_jsonl_vec(&path, &prog.src)?; Coll::T(read_jsonl_streaming::<V>(p, &path, per)?) }
+        Shape::KV => { write_jsonl_vec(&path, &prog.src.iter().map(kv_of).collect::<Vec<_>>())?; Coll::KV(read_jsonl_streaming::<(V, V)>(p, &path, per)?) }
+        Shape::KG => { write_jsonl_vec(&path, &prog.src.iter().map(kg_of).collect::<Vec<_>>())?; Coll::KG(read_jsonl_streaming::<(V, Vec<V>)>(p, &path, per)?) }
+        Shape::R => anyhow::bail!("no file source of shape R"),
+    };
+    for s in &prog.steps { c = apply_step(c, s); }
+    Ok(c)
+}
+
+pub fn run_real_file(prog: &Prog, per: usize, mode: Mode) -> Outcome {
+    let prog = prog.clone();
+    let threads = PAR_THREADS.load(std::sync::atomic::Ordering::SeqCst);
+    match with_watchdog(10, move || {
+        let dir = tempfile::tempdir()?;
+        let p = Pipeline::default();
+        let c = build_file(&p, &prog, per, dir.path())?;
+        if threads == 0 || mode == Mode::Seq { collect(c, mode) } else { pool_for(threads).install(|| collect(c, mode)) }
+    }) {
+        None => Outcome::Hang,
+        Some(Err(msg)) => Outcome::Panic(msg),
+        Some(Ok(Err(e))) => Outcome::Err(format!("{e}")),
+        Some(Ok(Ok(rows))) => Outcome::Rows(rows),
+    }
+}
+
+/// like `check_prog`, over a streamed file source with `per` lines per shard (request kind `PIPEF`)
+pub fn check_prog_file(cx: &mut Ctx, prog: &Prog, per: usize, modes: &[Mode], o: &CheckOpts) {
+    if !hazard_free(prog) { return; }
+    let canon = prog.canon();
+    let reference = if o.vs_reference { Some(reference(prog)) } else { None };
+    let mut seq_answer: Option<String> = None;
+    for m in modes {
+        let out = run_real_file(prog, per, *m);
+        let ans = outcome_answer(&out, canon);
+        let req = prog.request(&m.enc());
+        let idx = cx.case(format!("PIPEF per={per} {}", req.strip_prefix("PIPE ").unwrap_or(&req)), ans.clone(), prog.src.len() >= 2);
+        cx.count("source:streamed-jsonl-file");
+        cx.count(&format!("file-shards:{}", match prog.src.len().div_ceil(per.max(1)) { 0 => "0", 1 => "1", 2..=4 => "2-4", _ => "5+" }));
+        if matches!(out, Outcome::Hang) { cx.oracle_fail(idx, "run-does-not-terminate", format!("file source, mode {}", m.enc())); continue; }
+        if *m == Mode::Seq { seq_answer = Some(ans.clone()); }
+        else if o.par_vs_seq { if let Some(sa) = &seq_answer { if *sa != ans { cx.oracle_fail(idx, "par-differs-from-seq", format!("file source per={per}: seq={sa} par={ans}")); } } }
+        if let Some(r) = &reference {
+            let want = ref_answer(r, canon);
+            if want != ans { cx.oracle_fail(idx, "differs-from-reference", format!("file source per={per} mode={} real={ans} reference={want}", m.enc())); }
         }
     }
 }
